@@ -25,6 +25,7 @@ struct Scenario {
   uint64_t mag;      // magnitude of an integer text (|value| < 2^64), or beyond 64 bits when 'huge'
   bool huge;         // |value| >= 2^64: the libc saturates and sets ERANGE
   uint8_t suffix;    // 0: nothing follows the number, 1: garbage 'x', 2: ".5"
+  bool lead;         // a blank precedes the number (strto* skip leading white space)
   double dval;       // value of a decimal text for types with a divisor
   int errno0;        // errno left behind by an earlier operation in this thread
 };
@@ -36,6 +37,7 @@ static Scenario drawScenario() {
   s.mag = vp_nondet_u64();
   s.huge = vp_nondet_bool();
   s.suffix = vp_nondet_u8() % 3;
+  s.lead = vp_nondet_bool();
   s.dval = vp_nondet_double();
   s.errno0 = vp_nondet_bool() ? ERANGE : 0;
   // decimal texts denoting subnormal values are outside the scenario space: whether strtod flags them with ERANGE is
@@ -45,7 +47,7 @@ static Scenario drawScenario() {
 }
 
 #ifdef VP_SYMBOLIC
-static char* dummyEnd(const char* s) { return const_cast<char*>(s) + (s[0] == '-' ? 2 : 1); }
+static char* dummyEnd(const char* s) { const char* p = s; if (*p == ' ') p++; if (*p == '-') p++; return const_cast<char*>(p) + 1; }
 // contract stubs: the text handed to them is the dummy "1<suffix>", the result is the scenario's value
 extern "C" long strtol(const char* s, char** end, int) __THROW {
   if (g_sc.kind != 2) { if (end) *end = const_cast<char*>(s); return 0; }   // "-" holds no digits: no conversion
@@ -64,16 +66,17 @@ extern "C" unsigned long strtoul(const char* s, char** end, int) __THROW {
 }
 extern "C" double strtod(const char* s, char** end) __THROW {
   if (g_sc.kind != 2) { if (end) *end = const_cast<char*>(s); return 0.0; }
-  if (end) *end = const_cast<char*>(s) + 1;
+  if (end) *end = dummyEnd(s);
   return g_sc.dval;                            // finite values, +-inf ("inf") and NaN ("nan") are all valid results
 }
 static std::string scenarioText(const Scenario& s, bool decimal) {
   if (s.kind == 0) return "-";
   if (s.kind == 1) return "";
   // the dummy keeps the sign character of the real text; one literal per case (no string arithmetic on symbolic lengths)
-  const char* t = (!decimal && s.neg) ? (s.suffix == 0 ? "-1" : s.suffix == 1 ? "-1x" : "-1.5")
-                                      : (s.suffix == 0 ? "1" : s.suffix == 1 ? "1x" : "1.5");
-  return t;
+  const uint8_t sfx = (decimal && s.suffix == 2) ? 0 : s.suffix;   // a decimal text already carries its fraction
+  const char* t = (!decimal && s.neg) ? (sfx == 0 ? " -1" : sfx == 1 ? " -1x" : " -1.5")
+                                      : (sfx == 0 ? " 1" : sfx == 1 ? " 1x" : " 1.5");
+  return s.lead ? t : t + 1;   // with or without the leading blank
 }
 
 #else
@@ -87,7 +90,7 @@ static std::string scenarioText(const Scenario& s, bool decimal) {
     else snprintf(buf, sizeof buf, "%.17g", s.dval);
   } else if (s.huge) snprintf(buf, sizeof buf, "%s99999999999999999999999", s.neg ? "-" : "");
   else snprintf(buf, sizeof buf, "%s%llu", s.neg ? "-" : "", static_cast<unsigned long long>(s.mag));
-  std::string t = buf;
+  std::string t = std::string(s.lead ? " " : "") + buf;
   if (decimal) return s.suffix == 0 ? t : s.suffix == 1 ? t + "x" : t;   // ".5" after a decimal is not a separate suffix
   return s.suffix == 0 ? t : s.suffix == 1 ? t + "x" : t + ".5";
 }
